@@ -86,7 +86,11 @@ def run(tier, seed, replay):
         for i, asp in enumerate(spellings("a", longs["jwt-generate"].get("a", "algorithm"), alg_for_noalg)):
             variants.append((["-k", no_alg], asp, no_alg, spellings("a", longs["jwt-verify"].get("a", "algorithm"), alg_for_noalg)[i]))
         extras = [[], ["-n"], ["--no-iat"], ["-c", "s:iss=me"], ["--claim", "i:n=42"], ["--claim=b:admin=true"], ["-j", '{"a":[1,2],"b":"c"}'],
-                  ["--json", '{"x":1}'], ["-c", "s:a=1", "-c", "i:b=2", "-n"]]
+                  ["--json", '{"x":1}'], ["-c", "s:a=1", "-c", "i:b=2", "-n"],
+                  ["-c", "i:big=4294967296", "--claim", "i:neg=-5000000000", "--claim=i:max=9223372036854775807"],
+                  ["-c", "i:i31=2147483648", "-c", "i:m31=-2147483649", "-c", "i:zero=0", "-n"],
+                  ["-c", "b:t=true", "--claim", "b:f=false", "--claim=b:z=0", "-c", "b:F=False", "-c", "b:one=1", "-c", "b:y=yes"],
+                  ["--json", '{"deep":{"a":[1,{"b":null}]},"r":1.5,"s":"x y"}', "-c", "s:sub=someone", "-c", "i:uid=5000000000"]]
         for vi, (ks, asp, vkey, vasp) in enumerate(variants):
             ex = extras[(vi + len(name)) % len(extras)]
             # output modes: quiet (both spellings), default, verbose (both spellings), verbose/default with a --print command
@@ -101,6 +105,38 @@ def run(tier, seed, replay):
         m = TOKEN_RE.search(res["gen_out"])
         res["token"] = m.group(0) if m else None
         res["verifies"] = []
+        # the payload says what the claim options say (documented forms only: i decimal, s, b with the f/F/0 rule, --json members)
+        res["payload_problem"] = None
+        if res["token"]:
+            want = {}
+            g = j["gen"]
+            for i_, a_ in enumerate(g):
+                spec = None
+                if a_ in ("-c", "--claim") and i_ + 1 < len(g):
+                    spec = g[i_ + 1]
+                elif a_.startswith("--claim="):
+                    spec = a_[8:]
+                elif a_ in ("-j", "--json") and i_ + 1 < len(g):
+                    for k_, v_ in json.loads(g[i_ + 1]).items():
+                        want.setdefault(k_, v_)
+                if spec:
+                    t_, rest = spec.split(":", 1)
+                    k_, v_ = rest.split("=", 1)
+                    want[k_] = int(v_) if t_ == "i" else (v_ if t_ == "s" else (not v_[:1] in ("f", "F", "0")))
+            try:
+                seg = res["token"].split(".")[1]
+                got = json.loads(base64.urlsafe_b64decode(seg + "=" * (-len(seg) % 4)))
+            except Exception as e:
+                got = None
+                res["payload_problem"] = "payload does not decode: %s" % e
+            if got is not None:
+                for k_, v_ in want.items():
+                    if k_ not in got or type(got[k_]) is not type(v_) or got[k_] != v_:
+                        res["payload_problem"] = "claim %r: options say %r, payload has %r" % (k_, v_, got.get(k_, "<absent>"))
+                        break
+                no_iat = any(a_ in ("-n", "--no-iat") for a_ in g)
+                if res["payload_problem"] is None and (("iat" in got) == no_iat) and "iat" not in want:
+                    res["payload_problem"] = "iat %s although %s" % ("present" if "iat" in got else "absent", "--no-iat given" if no_iat else "not disabled")
         if res["token"]:
             vks = [["-k", j["vkey"]], ["--key", j["vkey"]], ["--key=" + j["vkey"]]]
             for i, vk in enumerate(vks):
@@ -137,6 +173,12 @@ def run(tier, seed, replay):
                           dict(cmd=[c[-80:] for c in r["gen"]], rc=r["gen_rc"], stderr=r["gen_err"], stdout=r["gen_out"][-300:]))
             continue
         rep.count("tokens_generated_by_tool")
+        if r.get("payload_problem"):
+            rep.violation("jwt-generate-payload-differs-from-options:%s" % ("int" if "i:" in r["desc"] else "bool" if "b:" in r["desc"] else "json" if "json" in r["desc"] or "-j" in r["desc"] else "other"),
+                          "the generated token's payload is not what the claim options say: %s" % r["payload_problem"],
+                          dict(cmd=[c[-80:] for c in r["gen"]], token=r["token"][:300]))
+        else:
+            rep.count("payloads_match_options")
         for desc, rc, err in r["verifies"]:
             if rc != 0:
                 aform = "long-eq" if "--algorithm=" in desc else "long" if "--algorithm " in desc + " " else "short" if "-a " in desc + " " else "none"
